@@ -142,11 +142,12 @@ def _oracle_job(pp, job):
                         # ignorables (parse_all pre-parses with them) - recognised by giving the wrapper those
                         # ignorables and seeing the difference disappear
                         sig = None
-                        if has_ign and pall[0] == "ok" and se[0] == "exc":
+                        if has_ign:
                             w = fresh() + pp.StringEnd()
                             for ig in root.ignoreExprs:
                                 w.ignore(ig)
-                            if _res(pp, lambda: w.parse_string(s).as_list()) == pall:
+                            rw = _res(pp, lambda: w.parse_string(s).as_list())
+                            if (rw[0] == "ok") == (pall[0] == "ok"):
                                 sig = "parse_all_vs_stringend_ignorables"
                         rec("parse_all == (expr + StringEnd())", s, pall, se, sig=sig)
                 # --- scan_string ------------------------------------------------------------------------
@@ -201,7 +202,7 @@ def _oracle_job(pp, job):
                     out.append(s[last:])
                     if "".join(out) != tr[1]:
                         rec("transform_string == unmatched text + tokens of each match", s, "".join(out), tr[1])
-            common.with_alarm(4.0, work)
+            common.with_alarm_retry(4.0, work)
             n += 1
         except common.CaseTimeout:
             with corr_parse._TIMEOUTS.get_lock():
@@ -264,7 +265,7 @@ def prior_job(job):
                         b = dict(views(root2, s))[name] if False else None
                     after = views(root2, s)
                     return fresh, after
-                r = common.with_alarm(corr_parse.CASE_TIMEOUT * 4, both)
+                r = common.with_alarm_retry(corr_parse.CASE_TIMEOUT * 4, both)
             except common.CaseTimeout:
                 r = None
             except Exception:  # noqa
